@@ -262,7 +262,8 @@ def c09_5(ctx):
             d = ctx.repo.module(r[0]).constants.get(r[1]) if r else None
             if isinstance(d, ast.Dict) and d.keys and all(isinstance(k, ast.Constant) and isinstance(k.value, str) and len(k.value) == 1 for k in d.keys):
                 for k, val in zip(d.keys, d.values):
-                    cls = ast.unparse(val)
+                    # the class itself, or a (class, label) tuple
+                    cls = ast.unparse(val.elts[0] if isinstance(val, ast.Tuple) and val.elts else val)
                     kind = "p2pkh" if cls == "P2PKHScriptPubKey" else ("p2sh" if cls == "P2SHScriptPubKey" else None)
                     if kind:
                         sets.setdefault(kind, set()).add(k.value)
